@@ -45,7 +45,12 @@ def make_scene(rng):
         mask = [list(m) for m in mask]
     nonfin = [[r, c] for r in range(h) for c in range(w) if rng.random() < 0.03] if rng.random() < 0.5 else []
     convnf = [[r, c] for r in range(h) for c in range(w) if rng.random() < 0.02] if rng.random() < 0.3 else []
-    return dict(segm=segm, data=data, conv=conv, err=err, bkg=bkg, mask=mask, nonfinite=nonfin, conv_nonfinite=convnf)
+    # the representation of the error map (no draw from rng: earlier scenes keep their arrays): narrow integer maps carry values whose
+    # SQUARE leaves the dtype (16 .. 48) - the quadrature sum must be the one of the numbers, not of wrapped squares
+    err_rep = ('float', 'uint8', 'int8', 'uint16')[int(err.sum()) % 4]
+    if err_rep != 'float':
+        err = err * 16
+    return dict(segm=segm, data=data, conv=conv, err=err, bkg=bkg, mask=mask, nonfinite=nonfin, conv_nonfinite=convnf, err_rep=err_rep)
 
 
 def arrays(sc):
@@ -85,7 +90,7 @@ def catalog(sc, use_err=True, use_bkg=True, detcat=None, order=None, relabel=Non
         segm.remove_label(int(seg.max()))
     else:
         segm = SegmentationImage(seg)
-    cat = SourceCatalog(d, segm, convolved_data=cv, error=sc['err'].astype(float) if use_err else None, mask=m,
+    cat = SourceCatalog(d, segm, convolved_data=cv, error=sc['err'].astype(sc.get('err_rep', 'float')) if use_err else None, mask=m,
                         background=sc['bkg'].astype(float) if use_bkg else None, detection_cat=detcat, localbkg_width=lbw)
     if order is not None:
         cat = cat[order]
